@@ -366,6 +366,8 @@ class C13(Sim):
                     if len(t) >= 2 and t[-1][1] == t[-2][1] and len(hist) >= 4 and hist[-2][:3] == "tog" and hist[-3][:3] == "pro" and hist[-4][:3] == "tog":
                         st.hit("probes.toggle_process_restore_process")
                 inputs_before = [EO.cv(iv.value) for iv in L.engine.input_variables] if k in ("process", "abort") else None
+                held_before = ([EO.cv(iv.value) for iv in L.engine.input_variables],
+                               [(EO.cv(ov.value), EO.fx(ov.previous_value), len(ov.fuzzy.terms)) for ov in L.engine.output_variables]) if k == "toggle" else None
                 r_real = apply_single(L.engine, op)
                 r_shadow = apply_single(L.shadow, op)
                 L.log.append(op)
@@ -383,6 +385,13 @@ class C13(Sim):
                     if [EO.cv(iv.value) for iv in L.engine.input_variables] != inputs_before:
                         v = viol("process_changed_the_input_values", i, role=role, before=str(inputs_before)[:200],
                                  after=str([EO.cv(iv.value) for iv in L.engine.input_variables])[:200])
+                if held_before is not None and v is None:
+                    # an enabled flag is configuration: flipping it (and flipping it back) must leave the values the engine holds
+                    # alone, or the toggle-and-restore pair is an earlier step that leaves a trace
+                    held_after = ([EO.cv(iv.value) for iv in L.engine.input_variables],
+                                  [(EO.cv(ov.value), EO.fx(ov.previous_value), len(ov.fuzzy.terms)) for ov in L.engine.output_variables])
+                    if held_after != held_before:
+                        v = viol("toggle_changed_held_values", i, role=role, path=str(op["path"]), before=str(held_before)[:200], after=str(held_after)[:200])
                 if k == "abort":
                     exc, fired = r_real
                     if exc is not None:
